@@ -122,6 +122,31 @@ theorem gen_float_to_fp (fmt : Fmt) (v : Dy) (hb : fmt.signed = true → 1 ≤ f
       simp only [hmag', Bool.not_false, if_true]
       rfl
 
+/-! ### `NumpyFloatToFixConverter.__init__`: the integer attributes -/
+
+/-- `NumpyFloatToFixConverter.__init__` as written in the source: ValueError exactly for the widths the model
+refuses (`npBits`, regenerated from the source as well), otherwise `max_value` / `min_value` are the format's
+`maxV` / `minV` and `n_frac` is stored (the attributes `bytes_per_element` and `dtype` are not integers and not
+translated) -/
+theorem gen_np_init (a b c : Int) (fmt : Fmt) :
+    PyFun.NumpyFloatToFixConverter_init a b c fmt.signed (fmt.bits : Int) fmt.frac
+      = if Rig.Gen.TypeCasts.npBits.contains fmt.bits then .ok (fmt.maxV, fmt.minV, fmt.frac)
+        else .error "ValueError" := by
+  unfold PyFun.NumpyFloatToFixConverter_init
+  have hmem : (([8, 16, 32, 64] : List Int).contains (fmt.bits : Int)) = Rig.Gen.TypeCasts.npBits.contains fmt.bits := by
+    rw [Bool.eq_iff_iff]
+    simp only [Rig.Gen.TypeCasts.npBits, List.contains_eq_mem, List.mem_cons, List.mem_nil_iff, or_false,
+      decide_eq_true_eq]
+    omega
+  rw [hmem]
+  by_cases h : Rig.Gen.TypeCasts.npBits.contains fmt.bits = true
+  · simp only [h, not_true_eq_false, if_false, if_true]
+    have e1 : ((fmt.bits : Int) - 1).toNat = fmt.bits - 1 := by omega
+    have e2 : ((fmt.bits : Int)).toNat = fmt.bits := by omega
+    rw [e1, e2]
+    cases hs : fmt.signed <;> simp [Fmt.maxV, Fmt.minV, hs]
+  · simp only [h, not_false_eq_true, if_true, Bool.false_eq_true, if_false]
+
 /-! ### the whole domain: underflowing scales and subnormal products -/
 
 theorem tdiv_small (m : Int) (d : Nat) (h : m.natAbs < d) : Int.tdiv m (d : Int) = 0 := by
